@@ -28,6 +28,8 @@ Modelled rather than verified (the theorems do not speak about these):
 * I/O failures are coarse: a record is written whole or not at all (a real `write_all` can stop half way), and
   after a failed write the batch model lets a worker go on (true of `run_batch_without_responses`; the
   persisting runner stops that worker — only "the run is an error" is modelled for it);
+* creating the file is `create_new` then the header on the same handle: in the atomic model one step; the
+  small-step model of section 5c shows the instant in between (a record before the header);
 * every worker finishes (`Complete`, `finished`, `done` are hypotheses: no theorem about termination);
 * an Append run on an existing file that lacks a final newline glues its first record to the last line, and on
   an existing EMPTY file writes no header (the theorems say `first ++ records`; "single header" means "written
@@ -847,6 +849,29 @@ example :
     let sch := [0, 1, 0, 1, 0, 1, 0, 1, 0, 1, 0, 1, 0, 1]
     (exec (cfg rowThenNewline) (SinkFine.init [txt "h\n"] 0 [[a], [b]]) sch).contents = txt "h\n{\"a\":1}{\"b\":2}\n\n" ∧
     (exec (cfg oneCall) (SinkFine.init [txt "h\n"] 0 [[a], [b]]) sch).contents = txt "h\n{\"a\":1}\n{\"b\":2}\n" := by
+  decide
+
+open SinkFine in
+/-- CREATING THE FILE (after the repair `fix: WriteMode::Append creates a missing output file with create-new
+semantics`): any number of sinks opening one path at the same time and appending, any interleaving of their
+steps — nothing that is in the file is ever removed: the file only grows, piece after piece.  (`create_new` being
+one step — it fails when the file is there — is the OS's, trusted.) -/
+theorem create_new_never_truncates (header : List Char) (st : OpenState) (schedule : List Nat) :
+    ∀ pieces, st.file = some pieces →
+      ∃ extra, (openExec false header st schedule).file = some (pieces ++ extra) :=
+  openExec_new_extends header schedule st
+
+open SinkFine in
+/-- the witness of the repaired defect (`sink/concurrent-build-truncates`): with the old check-then-write, two
+sinks that both saw the path missing both write the header, the second truncating the record the first had
+appended; the repaired code keeps it.  The last line shows what the model of the repaired code still allows: a
+record of the sink that lost the race to create may land before the header (nothing is lost). -/
+theorem check_then_write_truncates_counterexample :
+    let st : OpenState := { file := none, openers := [{ records := [txt "a\n"] }, { records := [txt "b\n"] }] }
+    let sch := [0, 1, 0, 0, 1, 1]
+    (openExec true (txt "h\n") st sch).file = some [txt "h\n", txt "b\n"] ∧
+    (openExec false (txt "h\n") st sch).file = some [txt "h\n", txt "a\n", txt "b\n"] ∧
+    (openExec false (txt "h\n") st [0, 1, 1, 0, 0]).file = some [txt "b\n", txt "h\n", txt "a\n"] := by
   decide
 
 /-! ## 5d. The whole CSV file, as a reader cuts it -/
